@@ -58,6 +58,7 @@ POINTS = {
 }
 REQUIRED_POINTS = list(POINTS)
 REQUIRED_CLAUSES = ["independent-of-other-instances",
+                    "independent-of-callers-lists",
                     "general.temporary-functions-on-reused-object", "linear==exact", "quadratic==exact", "general==exact",
                     "residual-orthogonal", "order-and-form-independent",
                     "general(x2,x,1)==quadratic", "general(x,1)==linear",
@@ -223,8 +224,9 @@ def case_fit(mon, xs, ys, names, pseed):
         mon.cls("clustered-abscissae", ident)
     if any(nm not in ("1", "x", "x2") for nm in names):
         mon.cls("non-polynomial-basis", ident)
+    own_x, own_y = list(xs), list(ys)      # the caller's own lists
     try:
-        cf = CF(list(xs), list(ys))
+        cf = CF(own_x, own_y)
     except Exception as ex:
         mon.dev("order-and-form-independent", dict(case, raised=repr(ex)))
         return
@@ -336,6 +338,24 @@ def case_fit(mon, xs, ys, names, pseed):
     mon.check("order-and-form-independent", worst <= tol_order,
               lambda: dict(case, reference=list(got), other=bad,
                            spread_rel=worst))
+    # the lists the object was built from remain the caller's: overwriting
+    # them afterwards does not reach the object (dedicated and general fit,
+    # and a copy taken now, still answer for the data that were loaded)
+    try:
+        g_before = tuple(cf.general_fitting(*[BASIS[v] for v in names]))
+        own_x[0] = own_x[0] + 17.0
+        own_y.reverse()
+        own_x.append(3.0)
+        again = list(lib_fit(cf, names)[1])
+        g_after = tuple(cf.general_fitting(*[BASIS[v] for v in names]))
+        c_after = list(lib_fit(CF(cf), names)[1])
+        ok_own = again == list(got) and g_after == g_before \
+            and c_after == list(got)
+    except Exception as ex:
+        ok_own, again, g_after, c_after = False, repr(ex), None, None
+    mon.check("independent-of-callers-lists", ok_own,
+              lambda: dict(case, before=list(got), after=again,
+                           general_after=g_after, copy_after=c_after))
     # the first object, now that the permuted / copied / re-set ones above
     # have been built and fitted, still gives bit-for-bit what it gave alone
     try:
